@@ -108,21 +108,21 @@ Proof.
       * (* wait *) injection Hs as <-. rewrite <- Hhead. pframe HI t Hpc. plk HI t Hpc.
     + assert (Hr1 : loc s r = 1) by (apply (Hd r lu); left; reflexivity).
       simpl in N1. apply NoDup_cons_iff in N1 as [Nr N1].
-      destruct (expired maxage lu (now s)) eqn:Hex; injection Hs as <-.
+      destruct (expired maxage lu (now s)) eqn:Hex; [destruct (negb (gate_open (open s) (if Nat.eqb (t_dpan (ts s t)) 2 then 80 + r else 0))); [discriminate|]|]; injection Hs as <-.
       * (* destroy *)
-        assert (Hx : holds (t_pc (setpc (ts s t) (if Nat.eqb (t_dpan (ts s t)) 0 then GLoop else GPanic))) = true)
-          by (cbn [setpc t_pc]; destruct (Nat.eqb (t_dpan (ts s t)) 0); reflexivity).
+        assert (Hx : holds (t_pc (setpc (ts s t) (if Nat.eqb (t_dpan (ts s t)) 1 then GPanic else GLoop))) = true)
+          by (cbn [setpc t_pc]; destruct (Nat.eqb (t_dpan (ts s t)) 1); reflexivity).
         destruct (keep_lock limit s t _ HI Hhold Hx) as [K1 K2].
         constructor; cbn [lock created head waiters nextres now open ts trace loc ncreate ndestroy nleak]; auto.
-        -- repeat split; try lia. intros u. pcase u t; [|apply C4]. cbn [setpc t_pc]. destruct (Nat.eqb (t_dpan (ts s t)) 0); discriminate.
+        -- repeat split; try lia. intros u. pcase u t; [|apply C4]. cbn [setpc t_pc]. destruct (Nat.eqb (t_dpan (ts s t)) 1); discriminate.
         -- intros u r' Hin. assert (Hin' : In r' (holding (ts s u))).
            { pcase u t; [|assumption]. unfold holding in *. rewrite Hpc. cbn [setpc t_pc t_held] in Hin.
-             destruct (Nat.eqb (t_dpan (ts s t)) 0); assumption. }
+             destruct (Nat.eqb (t_dpan (ts s t)) 1); assumption. }
            pose proof (H _ _ Hin') as Hl. rewrite upd_other; [assumption|]. intro; subst r'. lia.
         -- intros r' lu' Hin. rewrite upd_other; [apply (Hd r' lu'); right; assumption|].
            intro; subst r'. apply Nr. apply in_map_iff. exists (r, lu'). auto.
         -- intros u. pcase u t; [|apply N2]. specialize (N2 t). unfold holding in *. rewrite Hpc in N2. cbn [setpc t_pc t_held].
-           destruct (Nat.eqb (t_dpan (ts s t)) 0); assumption.
+           destruct (Nat.eqb (t_dpan (ts s t)) 1); assumption.
         -- intros r' Hr'. rewrite upd_other; [apply F; assumption|]. intro; subst r'. specialize (F _ Hr'). lia.
       * (* hand out *)
         destruct (keep_lock limit s t (setpc (ts s t) (GRet r)) HI Hhold eq_refl) as [K1 K2].
@@ -229,12 +229,13 @@ Qed.
    or is unwound if the destroy callback panics); and a destroyed resource is nowhere ever after *)
 Lemma pool_max_age_step limit maxage s t r lu rest :
   t_pc (ts s t) = GLoop -> head s = (r, lu) :: rest -> 0 < maxage -> lu + maxage < now s ->
+  gate_open (open s) (if Nat.eqb (t_dpan (ts s t)) 2 then 80 + r else 0) = true ->   (* the destroy callback returns *)
   exists s', step limit maxage (Thr t) s = Some s' /\ loc s' r = 2 /\ head s' = rest /\
-             t_pc (ts s' t) = (if Nat.eqb (t_dpan (ts s t)) 0 then GLoop else GPanic) /\
+             t_pc (ts s' t) = (if Nat.eqb (t_dpan (ts s t)) 1 then GPanic else GLoop) /\
              t_held (ts s' t) = t_held (ts s t) /\ t_res (ts s' t) = t_res (ts s t) /\
              ndestroy s' = (ndestroy s + 1)%Z /\ created s' = (created s - 1)%Z.
 Proof.
-  intros Hpc Hh Hm Hlt. unfold step. rewrite Hpc, Hh. unfold expired.
+  intros Hpc Hh Hm Hlt Hg. unfold step. rewrite Hpc, Hh, Hg. unfold expired.
   assert (Nat.ltb 0 maxage = true) as -> by (apply Nat.ltb_lt; assumption).
   assert (Nat.ltb (lu + maxage) (now s) = true) as -> by (apply Nat.ltb_lt; assumption).
   simpl. eexists. split; [reflexivity|]. simpl. rewrite !upd_same. repeat split; auto.
@@ -247,8 +248,9 @@ Proof.
   intros Hpc Hh Hs Hr. unfold step in Hs. rewrite Hpc, Hh in Hs. unfold expired in Hs.
   destruct (Nat.ltb 0 maxage) eqn:E1; [|apply Nat.ltb_ge in E1; left; lia].
   destruct (Nat.ltb (lu + maxage) (now s)) eqn:E2; [|apply Nat.ltb_ge in E2; right; lia].
-  simpl in Hs. injection Hs as <-. simpl in Hr. rewrite upd_same in Hr. simpl in Hr.
-  destruct (Nat.eqb (t_dpan (ts s t)) 0); discriminate.
+  cbn [andb] in Hs. destruct (negb (gate_open (open s) (if Nat.eqb (t_dpan (ts s t)) 2 then 80 + r else 0))); [discriminate|].
+  injection Hs as <-. simpl in Hr. rewrite upd_same in Hr. simpl in Hr.
+  destruct (Nat.eqb (t_dpan (ts s t)) 1); discriminate.
 Qed.
 
 Lemma pool_destroyed_gone limit maxage scripts sched r : (0 <= limit)%Z ->
@@ -271,7 +273,8 @@ Proof.
   - destruct (head s) as [|[r' lu] rest] eqn:Hhead.
     + destruct (Z.ltb (created s) limit); injection Hs as <-; assumption.
     + assert (loc s r' = 1) by (apply (Hd r' lu); left; reflexivity).
-      destruct (expired maxage lu (now s)); injection Hs as <-; simpl; (destruct (Nat.eq_dec r r') as [->|Hne]; [lia|rewrite upd_other by assumption; assumption]).
+      destruct (expired maxage lu (now s)); [destruct (negb (gate_open (open s) (if Nat.eqb (t_dpan (ts s t)) 2 then 80 + r' else 0))); [discriminate|]|];
+        injection Hs as <-; simpl; (destruct (Nat.eq_dec r r') as [->|Hne]; [lia|rewrite upd_other by assumption; assumption]).
   - destruct (gate_open (open s) (t_gate (ts s t))); [|discriminate].
     destruct (Nat.eqb (t_cpan (ts s t)) 0); injection Hs as <-; [|assumption]. simpl.
     rewrite upd_other; [assumption|]. intro; subst r. rewrite F in Hl by lia. discriminate.
@@ -311,3 +314,11 @@ Lemma pool_put_nil_noop limit maxage s t : t_pc (ts s t) = PNil ->
 Proof.
   intro Hpc. unfold step. rewrite Hpc. eexists. split; [reflexivity|]. cbn [created head waiters lock ts]. rewrite upd_same. auto 10.
 Qed.
+
+(* a slow destroy callback: while it has not returned, Get stays where it is, holding p.lock -- so no
+   replacement is created or handed out before the expired resource is gone *)
+Lemma pool_destroy_blocks limit maxage s t r lu rest :
+  t_pc (ts s t) = GLoop -> head s = (r, lu) :: rest -> expired maxage lu (now s) = true ->
+  gate_open (open s) (if Nat.eqb (t_dpan (ts s t)) 2 then 80 + r else 0) = false ->
+  step limit maxage (Thr t) s = None.
+Proof. intros Hpc Hh He Hg. unfold step. rewrite Hpc, Hh, He, Hg. reflexivity. Qed.
